@@ -9,8 +9,10 @@ def _clone(spec):
 
 def sbx_moves(spec):
     ops = spec['ops']
-    # 1. drop an op (never the last one: that is where the judged fault / observation sits)
-    for i in range(len(ops) - 1):
+    # 1. drop an op (a candidate that loses the violation is rejected by the caller)
+    for i in reversed(range(len(ops))):
+        if len(ops) == 1:
+            break
         c = _clone(spec)
         del c['ops'][i]
         yield c
